@@ -220,6 +220,10 @@ func Format(input []byte) []byte {
 		}
 
 		if unicode.IsSpace(ch) {
+			// like the lexer, ignore CR altogether: it does not separate tokens
+			if ch == '\r' {
+				continue
+			}
 			space = true
 			tokenEnded = false
 			heredocEscaped = false
